@@ -34,6 +34,7 @@ ASSUMPTIONS = ["termination only claimed for inputs without WHILE and without se
                "hang = event budget (300k file events), line budget (hook H2) or 20 s CPU; counted only if it replays"]
 
 LINE_BUDGET = 400000
+CPU_BACKSTOP_SHAPE = 0x24242424  # stands in for the event-log hash of a run ended by the CPU backstop
 
 # ------------------------------------------------------------------ reference programs (E1-E4)
 REF_PROGS = {
@@ -766,7 +767,9 @@ def refine_pass_hang(sim, prog, sc, cls):
 def run_one(sim, acc, prog, sc, origin, kind, nontrivial_off=None):
     r, san = sim.run(prog, sc, "asan")
     acc.runs += 1
-    acc.shapes.add(r.hash)
+    # a run ended by the CPU backstop stops at a point that depends on the machine's speed: its event log is no part of
+    # the reproducible record (verdicts never rest on it either, see below)
+    acc.shapes.add(CPU_BACKSTOP_SHAPE if (r.kind == 1 and r.code == 24) else r.hash)
     fb = sc.get("disk", {}).get("/w/f.p")
     acc.keys.append((sc_key(prog, sc), 1 if (nontrivial_off is None or r.bytes_read >= min(nontrivial_off, len(fb or b""))) else 0))
     acc.sim_us += r.sim_us
